@@ -42,6 +42,36 @@ theorem invert_masks_both_paths_partial (b : List (α × α)) (fill : α) (pix :
     invert false .iterative (some b) true fill true pix = pix.map (fun _ => fill) :=
   (invert_masks_of_masking false .iterative (Or.inl rfl) b fill pix).1 hb
 
+/-- **mask_all_or_nothing.** A masked row is either the solution as it was or the fill value on *every* axis: never a
+    half-masked point such as `(nan, 10.0)`. -/
+theorem mask_all_or_nothing (box : Option (List (α × α))) (wbb : Bool) (fill : α) (valid : Bool) (pix : List α) :
+    maskPix box wbb fill valid pix = pix ∨ maskPix box wbb fill valid pix = pix.map (fun _ => fill) := by
+  unfold maskPix
+  cases wbb <;> cases box <;> simp only [Or.inl, true_or]
+  rename_i b
+  by_cases h : (valid && !(inBox b pix)) = true
+  · right; simp only [h, if_true]
+  · left; simp only [h]; rfl
+
+/-- **mask_rowwise.** Masking a batch is masking each of its points alone: the answer for a point does not depend on which other
+    points (unsolved ones, rescued ones, out-of-box ones) share the batch, nor on where in the batch it stands. -/
+theorem mask_rowwise (box : Option (List (α × α))) (wbb : Bool) (fill : α) (rows : List (Bool × List α)) (k : Nat) (hk : k < rows.length) :
+    (maskRows box wbb fill rows)[k]? = some (maskPix box wbb fill rows[k].1 rows[k].2) := by
+  simp [maskRows, hk]
+
+theorem mask_append (box : Option (List (α × α))) (wbb : Bool) (fill : α) (a b : List (Bool × List α)) :
+    maskRows box wbb fill (a ++ b) = maskRows box wbb fill a ++ maskRows box wbb fill b := by
+  simp [maskRows]
+
+theorem mask_perm (box : Option (List (α × α))) (wbb : Bool) (fill : α) (a b : List (Bool × List α)) (h : a.Perm b) :
+    (maskRows box wbb fill a).Perm (maskRows box wbb fill b) :=
+  h.map _
+
+/-- a point the root finder rescued (valid again) is masked like any other: outside the box it is the fill value -/
+theorem rescued_point_masked (b : List (α × α)) (fill : α) (pix : List α) (hb : inBox b pix = false) :
+    maskPix (some b) true fill true pix = pix.map (fun _ => fill) := by
+  simp [maskPix, hb]
+
 /-- **invert_nomask.** With masking off the box is ignored on both paths. -/
 theorem invert_nomask (am : Bool) (path : Path) (box : Option (List (α × α))) (fill : α) (valid : Bool) (pix : List α) :
     invert am path box false fill valid pix = pix := by
